@@ -388,6 +388,17 @@ func (p *progBuilder) walk(list []ast.Stmt) {
 					p.emit(".compute %s true", q("set certVerify = "+exprStr(s.Rhs[0])))
 				}
 			}
+			// overwriting a whole handshake state (`*hs = HandshakeState{…}`) replaces the attached
+			// verification policy as well, unless the literal carries it over
+			for k, l := range s.Lhs {
+				st, ok := l.(*ast.StarExpr)
+				if !ok || k >= len(s.Rhs) {
+					continue
+				}
+				if tv, ok := p.info.Types[st.X]; ok && strings.HasSuffix(tv.Type.String(), "HandshakeState") {
+					p.emit(".compute %s true", q("set certVerify = (whole state overwritten) "+exprStr(s.Rhs[k])))
+				}
+			}
 			for _, r := range s.Rhs {
 				if c, fn := callOf(r); c != nil {
 					p.call(c, fn, list, i)
